@@ -1,6 +1,6 @@
 """Structured-control tables and bookkeeping of the special instrumentation
 modes (function entry/exit, block entry/exit/alt, semantic after)."""
-from vlib.facts import walk, pat_variants, pat_alternatives, peel, place_path, CheckError, lca, sp_before, path_to, conditional_ancestors
+from vlib.facts import walk, pat_variants, pat_alternatives, peel, place_path, CheckError, lca, sp_before, path_to, conditional_ancestors, lit_int
 from vlib.paths import paths, normal_paths
 from vlib.report import RuleResult
 
@@ -439,4 +439,59 @@ def entry_preserve(F):
 
     visit(rs["body"], False)
     r.count("entry_rewrites", n_writes)
+    return r
+
+
+def walk_bounds(F):
+    """R-WALK-BOUNDS: the per-function walks that lower special instrumentation and emit the code section visit every
+    element of the function vector (imports/deleted entries are skipped by kind inside the loop).  Bounding the walk by a
+    counter (imports.num_funcs is never decremented on delete; num_local_functions is not incremented by import→local
+    conversion; added imports sit after the locals until re-indexing) silently skips local functions."""
+    r = RuleResult("R-WALK-BOUNDS",
+                   "the function walks of resolve_special_instrumentation and of the code-section emitter range over 0..self.functions.len(): neither bound is derived from an import/local counter")
+    n = 0
+    for name in ("resolve_special_instrumentation", "encode_internal"):
+        fn = F.one_fn(name=name, self_adt="Module")
+        r.analysed.append(fn["path"])
+        for m in walk(fn["body"]):
+            if not (m.get("k") == "Match" and m.get("src") == "ForLoopDesugar"):
+                continue
+            rng = None
+            for x in walk(m["scrut"]):
+                if x.get("k") == "Struct" and (x.get("adt") or "").endswith("ops::Range") and x.get("fields"):
+                    rng = dict(x["fields"])
+            if not rng or "start" not in rng:
+                continue
+            # is the loop variable used as a FunctionID?
+            binds = set()
+            for lp in walk(m["arms"][0]["body"]):
+                if lp.get("k") == "Match" and lp is not m:
+                    for arm in lp["arms"]:
+                        if arm["pat"].get("variant") == "Some":
+                            binds |= {b["hid"] for b in walk(arm["pat"]) if b.get("k") == "Binding"}
+                    break
+            as_fid = False
+            for c in walk(m["arms"][0]["body"]):
+                if c.get("k") == "Call" and (c.get("fres") or {}).get("path", "").endswith("FunctionID") or (c.get("k") == "Call" and "FunctionID" in (c.get("ty") or "")):
+                    if any(y.get("k") == "Path" and y.get("res", {}).get("hid") in binds for y in walk(c)):
+                        as_fid = True
+            if not as_fid:
+                continue
+            n += 1
+            start, end = peel(rng["start"]), peel(rng["end"])
+            s_ok = start.get("k") == "Lit" and lit_int(start.get("lit")) == 0
+            e = end
+            while isinstance(e, dict) and e.get("k") == "Cast":
+                e = peel(e["a"])
+            e_ok = isinstance(e, dict) and e.get("k") == "MethodCall" and e["method"] == "len" and (place_path(e["recv"]) or "") == "self.functions"
+            counters = sorted({y["name"] for b_ in (rng["start"], rng["end"]) for y in walk(b_) if y.get("k") == "Field" and y["name"].startswith("num_")} |
+                              {y["res"].get("name") for b_ in (rng["start"], rng["end"]) for y in walk(b_) if y.get("k") == "Path" and y.get("res", {}).get("r") == "local" and y["res"].get("name") != "self"})
+            ok = s_ok and e_ok
+            r.ob(ok, {"fn": name, "range": "0..self.functions.len()" if ok else "bounded by %s" % counters})
+            if not ok:
+                r.violate("%s | function walk bounds" % fn["path"], F.loc(fn, m),
+                          "the function walk of %s is bounded by %s instead of 0..self.functions.len(): local functions outside that window (after a deleted original import, after imports added in this session, or created by converting an import) are never lowered/emitted" % (name, counters or "a computed value"))
+    r.count("function_walks", n)
+    if n < 2:
+        raise CheckError("expected the two function walks (resolver, code section), found %d" % n)
     return r
